@@ -1,5 +1,6 @@
 import Qv.Proofs.C09
 import Qv.Proofs.C09Inj
+import Qv.Proofs.C09Surj
 /-!
 # C09 — tensor-structure operations act on the subsystem indices they name
 
@@ -95,6 +96,15 @@ theorem indexer_single_lt (dims order : List Nat) (idx : Nat) (hp : Pos dims)
     single dims (cumprod dims order) idx < size (newDims dims order) := by
   rw [indexer_single_spec dims order idx hp hperm hi]
   exact singleSpec_lt dims order idx hp hperm hi
+
+/-- ... and **onto**: every index of the permuted space is the image of an index in range, so
+`out[single r, single c] = M[r, c]` fills every entry of the result (the permuted space has the size of the
+old one, `size_newDims`; pigeonhole from `indexer_single_injective`, Mathlib `Finite.injective_iff_surjective`). -/
+theorem indexer_single_surjective (dims order : List Nat) (hp : Pos dims)
+    (hperm : order.Perm (List.range dims.length)) (r : Nat) (hr : r < size (newDims dims order)) :
+    ∃ i, i < size dims ∧ single dims (cumprod dims order) i = r := by
+  obtain ⟨i, hi, h⟩ := singleSpec_surjective dims order hp hperm r hr
+  exact ⟨i, hi, by rw [indexer_single_spec dims order i hp hperm hi]; exact h⟩
 
 /-- non-vacuity: the images of all 6 indices under a genuine permutation are 6 different indices -/
 example : (List.range 6).map (single [2, 1, 3] (cumprod [2, 1, 3] [2, 0, 1])) = [0, 2, 4, 1, 3, 5] := by decide
